@@ -63,31 +63,7 @@ def failing_family(rng):
 
 
 
-def dependent_family(rng):
-    """a counted loop with 1-3 accumulators (`z = z + b`: the derivation succeeds at some choices only) and
-    variables computed from them (`out = z * z`, `out = z + w`, `out = z`), names drawn at random so that the
-    restricting source is first / last / in the middle of the (sorted) variable list; 2-6 sources per dependent"""
-    names = rng.sample(['a', 'b', 'c', 'd', 'e', 'g', 'h', 'k', 'm', 'p', 'q', 'r', 's', 't', 'u', 'v', 'w', 'z'], 9)
-    guard, accs, bases, deps = names[0], names[1:1 + rng.randint(1, 3)], names[4:6], names[6:6 + rng.randint(1, 3)]
-    stmts = [f'{a} = {a} {rng.choice("+*")} {rng.choice(bases)};' for a in accs]
-    for d in deps:
-        k = rng.random()
-        a1 = rng.choice(accs)
-        if k < 0.4:
-            stmts.append(f'{d} = {a1} * {a1};')
-        elif k < 0.7:
-            stmts.append(f'{d} = {a1} + {rng.choice(accs + bases)};')
-        elif k < 0.85:
-            stmts.append(f'{d} = {a1};')
-        else:
-            stmts.append(f'{d} = {rng.choice(bases)} * {a1};')
-    if rng.random() < 0.5 and len(deps) > 1:
-        stmts.append(f'{deps[0]} = {deps[0]} + {deps[1]};')
-    body = ' '.join(stmts)
-    params = ','.join('int ' + n for n in sorted(set([guard] + accs + bases + deps)))
-    if rng.random() < 0.75:
-        return f'int f({params}){{ int i; for (i = 0; i < {guard}; i++) {{ {body} }} }}'
-    return f'int f({params}){{ while ({guard}) {{ {body} }} }}'
+from props.funcs_common import dependent_family  # noqa: E402
 
 
 def observe_loop(loop_node):
